@@ -735,6 +735,23 @@ def passes_through(cal):
     return idx.pop() if len(idx) == 1 else None
 
 
+def _walk_outside_builders(n):
+    """the nodes of an expression that are not inside a call of one of our own builders: what a builder returns is well-formed whatever
+    went in (its own preconditions are checked at that call), e.g. the 1-bit slices collected for `redxor`"""
+    stack = [n]
+    while stack:
+        x = stack.pop()
+        if isinstance(x, list):
+            stack.extend(x)
+            continue
+        if not isinstance(x, dict):
+            continue
+        if x.get("k") == "mcall" and (callee(x) or "").startswith(CTX + "::"):
+            continue
+        yield x
+        stack.extend(v for k_, v in x.items() if k_ != "mac" and isinstance(v, (dict, list)))
+
+
 def operand_source(lid, defs, depth):
     """'line reference token k' / 'parsed integer token k' / 'sort token k' when the local comes from the input line"""
     if depth > 4:
@@ -768,7 +785,11 @@ def operand_source(lid, defs, depth):
             a_ = peel(c["args"][pt])
             return operand_source(a_["id"], defs, depth + 1) if a_.get("k") == "local" else None
         if c["name"] in ("get_type", "get_bit_vector_width", "unwrap") or True:
-            for x in walk(c):
+            d_ = defs.get(lid)
+            wants_expr = bool(d_) and "ExprRef" in str(d_[2].get("ty", ""))
+            for x in _walk_outside_builders(c):
+                if wants_expr and x.get("k") == "local" and "ExprRef" not in str(x.get("ty", "")):
+                    continue        # an expression cannot come out of an integer (`0..width`), only out of expressions and collections of them
                 if x.get("k") == "local" and x["id"] != lid:
                     s_ = operand_source(x["id"], defs, depth + 1)
                     if s_:
